@@ -170,7 +170,9 @@ def normalise(tr):
 def monitor(c, results, label):
     """TLC evaluates the clauses on every trace; returns {trace id: [(clause, line in trace)]}"""
     from concurrent.futures import ThreadPoolExecutor
-    nb = max(1, min(6, vlib.NCPU // 3, len(results) // 200 + 1))
+    # one state per line, and TLC handles behaviours of up to 65535 states: batches of <= ~40000 lines
+    nlines = sum(len(tr) for _, tr in results)
+    nb = max(1, nlines // 40000 + 1)
     batches = [results[k::nb] for k in range(nb)]
 
     def one(k):
@@ -189,7 +191,7 @@ def monitor(c, results, label):
             raise vlib.Inconclusive("trace validation %s read %s of %d lines" % (label, v["lines"], len(lines)))
         return len(lines), [(x["t"], x["c"], x["l"] - start[x["t"]]) for x in v["viol"]]
 
-    with ThreadPoolExecutor(nb) as ex:
+    with ThreadPoolExecutor(max(1, min(6, vlib.NCPU // 3))) as ex:
         outs = list(ex.map(one, range(nb)))
     bad = {}
     for n, viol in outs:
@@ -211,7 +213,7 @@ def strict(c, results, label, limit):
     jobs = []
     for ncomp, grp in sorted(groups.items()):
         grp = grp[:max(1, limit * len(grp) // max(1, len(results)))]
-        nb = max(1, min(4, len(grp) // 150))
+        nb = max(1, len(grp) // 150)       # TLC handles behaviours of up to 65535 states
         jobs += [(ncomp, grp[k::nb], "%s_%d_%d" % (label, ncomp, k)) for k in range(nb)]
 
     def one(job):
@@ -256,7 +258,7 @@ def strict(c, results, label, limit):
             grp = grp[k + 1:]
         return followed, drift, len(job[1])
 
-    with ThreadPoolExecutor(max(1, min(6, len(jobs)))) as ex:
+    with ThreadPoolExecutor(max(1, min(6, vlib.NCPU // 3, len(jobs)))) as ex:
         outs = list(ex.map(one, jobs))
     followed = sum(o[0] for o in outs)
     total = sum(o[2] for o in outs)
